@@ -306,7 +306,9 @@ func genAccess(pkgs []*packages.Package, leanDir, outDir string) {
 			rows = append(rows, r)
 		}
 	}
-	globName := func(g *ssa.Global) string { return strings.TrimPrefix(g.Pkg.Pkg.Path(), "github.com/kklash/") + "." + g.Name() }
+	globName := func(g *ssa.Global) string {
+		return strings.TrimPrefix(g.Pkg.Pkg.Path(), "github.com/kklash/") + "." + g.Name()
+	}
 	for f := range funcs {
 		if f.Pkg == nil || !inScope(f.Pkg.Pkg.Path()) || f.Blocks == nil {
 			continue
